@@ -970,6 +970,7 @@ class WSGIApp:
                 raise BadRequest(str(e)) from e
             raise Conflict(f"SubmodelElement with idShort {new_submodel_element.id_short} already exists "
                            f"within {parent}!")
+        new_submodel_element.commit()
         submodel = self._get_submodel(url_args)
         id_short_path = url_args.get("id_shorts", [])
         created_resource_url = map_adapter.build(self.get_submodel_submodel_elements_id_short_path, {
@@ -1000,6 +1001,8 @@ class WSGIApp:
         sm_or_se = self._get_submodel_or_nested_submodel_element(url_args)
         parent: model.UniqueIdShortNamespace = self._expect_namespace(sm_or_se.parent, sm_or_se.id_short)
         self._namespace_submodel_element_op(parent, parent.remove_referable, sm_or_se.id_short)
+        # the removed element has no parent anymore, so the change is committed via its former parent
+        parent.commit()  # type: ignore[attr-defined]
         return response_t()
 
     def get_submodel_submodel_element_attachment(self, request: Request, url_args: Dict, **_kwargs) -> Response:
